@@ -866,7 +866,11 @@ impl<'p, 's, M: Matcher, W: WriteColor> Sink for StandardSink<'p, 's, M, W> {
         }
         if searcher.binary_detection().convert_byte().is_some() {
             if self.binary_byte_offset.is_some() {
-                return Ok(false);
+                // Don't print the context line, but don't stop the search
+                // either: stopping here, before the match this line is the
+                // context of has been seen, would report neither a match nor
+                // the "binary file matches" notice.
+                return Ok(true);
             }
         }
 
@@ -878,6 +882,13 @@ impl<'p, 's, M: Matcher, W: WriteColor> Sink for StandardSink<'p, 's, M, W> {
         &mut self,
         searcher: &Searcher,
     ) -> Result<bool, io::Error> {
+        // Once binary data has been seen, nothing but the "binary file
+        // matches" notice is printed (see `context` above).
+        if searcher.binary_detection().convert_byte().is_some() {
+            if self.binary_byte_offset.is_some() {
+                return Ok(true);
+            }
+        }
         StandardImpl::new(searcher, self).write_context_separator()?;
         Ok(true)
     }
